@@ -26,7 +26,7 @@ def gen_format(f):
     o = []
     T = f['type']
     o.append('/* generated from spec/wire.spec - do not edit */')
-    o.append('#include <stddef.h>\n#include <stdint.h>')
+    o.append('#include <stddef.h>\n#include <stdint.h>\n#include <string.h>')
     o.append('#include "vp_bind.h"   /* first: a header that leaks a #pragma must not change the monitor\'s own structs */')
     o.append('#include "%s"' % f['header'])
     o.append(COMPAT.get(f['id'], ''))
@@ -56,6 +56,24 @@ def gen_format(f):
                 o.append('static int linit(void* p, uint32_t arg) { return %s(p, (uint8_t)arg); }' % lg['init'])
             else:
                 o.append('static int linit(void* p, uint32_t arg) { (void)arg; return %s(p); }' % lg['init'])
+    # direct-call sequence
+    steps = []   # (field index, path, get expr, set stmt)
+    for i, x in enumerate(f['fields']):
+        steps.append((i, 0, '%s(p, %s)' % (api['gget'], x['enum']), '%s(p, %s, vals[%%d]);' % (api['gset'], x['enum'])))
+        if x['dget']:
+            steps.append((i, 1, '(uint64_t)%s(p)' % x['dget'], '%s(p, vals[%%d]);' % x['dset']))
+        if lg and lg['valbytes'] == 8:
+            steps.append((i, 2, 'LGET(%s, %s)' % (lg['get'], x['enum']), '%s(p, %s, vals[%%d]);' % (lg['set'], x['enum'])))
+    o.append('#define LGET(fn, id) (fn(p, id, &lv) == 0 ? lv : 0xdeadbeefdeadbeefull)')
+    o.append('static uint32_t seq(void* vp, const uint8_t* alt, const uint64_t* vals, uint64_t* out)')
+    o.append('{')
+    o.append('    %s* p = (%s*)vp; uint32_t k = 0; uint64_t lv = 0; (void)lv;' % (T, T))
+    for n, (i, path, g, st) in enumerate(steps):
+        o.append('    out[k++] = %s; %s out[k++] = %s; memcpy(p, alt, %d); out[k++] = %s;' % (g, st % n, g, f['bytes'], g))
+    o.append('    return k;')
+    o.append('}')
+    o.append('static const uint16_t seq_field[] = { %s };' % ', '.join(str(i) for i, _, _, _ in steps))
+    o.append('static const uint8_t seq_path[] = { %s };' % ', '.join(str(p) for _, p, _, _ in steps))
     o.append('\nstatic const vp_field_t fields[] = {')
     for x in f['fields']:
         o.append('    { %s, %s, %d, %d, %s, %s, %s, %s, %s },' % (
@@ -88,6 +106,7 @@ def gen_format(f):
     o.append('    %s, %s,' % ('1' if f['aliasmax'] else '0', f['aliasmax'] or '0'))
     o.append('    %s, %s,' % ('sizeof(lstructs)/sizeof(lstructs[0])' if f['lstructs'] else '0', 'lstructs' if f['lstructs'] else '0'))
     o.append('    %s,' % ('payload_ptr' if api.get('payload') else '0'))
+    o.append('    seq, %d, seq_field, seq_path,' % len(steps))
     o.append('    "%s", "%s", %s' % (api['gget'], api['gset'], cstr(api.get('init'))))
     o.append('};')
     return '\n'.join(o) + '\n'
